@@ -21,18 +21,24 @@ class C16(Prop):
     design_ref = 'DESIGN.md §4 C16'
     technique = ('Lean 4 proof by induction over op lists of a state-machine model whose steps are the atomic blocks between awaits + '
                  'differential correspondence with the real class under a deterministic asyncio loop')
-    level_text = ('Theorems for all op lists (all interleavings of acquire/release by any number of tasks, weights <= capacity): value + held = '
-                  'capacity and value >= 0; tasks granted from the queue ++ tasks still queued = tasks that queued, in arrival order (FIFO); an '
-                  'arrival never overtakes a non-empty queue; after every step a non-empty queue has a head that does not fit; nobody waits when '
-                  'nobody holds. The model is tied to the real FIFOWeightedSemaphore by comparing (value, holders, waiting order, grant order) '
-                  'after every op of random and (thorough) exhaustive small op sequences.')
+    level_text = ('Theorems for all op lists (all interleavings of acquire / release / resumption of a woken waiter by any number of tasks, '
+                  'including several releases or a release and a new acquire before a woken waiter runs; weights <= capacity): value + held = '
+                  'capacity and value >= 0, where held counts running bodies AND woken waiters (a woken waiter owns its weight); running bodies '
+                  '<= capacity; resuming changes nothing; tasks granted from the queue ++ tasks still queued = tasks that queued, in arrival '
+                  'order (FIFO); an arrival never overtakes a non-empty queue; after every step a non-empty queue has a head that does not fit; '
+                  'nobody waits when nothing is handed out. The model is tied to the real FIFOWeightedSemaphore by comparing (value, ids in a '
+                  'body, waiting order, body-entry order) after every group of ops issued inside one loop iteration, on random and exhaustive '
+                  'small group sequences.')
     level_note = ('Trusted: Lean kernel; the hand-written model FifoSem agrees with the Python class only as far as the correspondence cases '
                   'show; asyncio atomicity between awaits; cancellation of waiters is outside the property.')
     budget = {'quick': 5000, 'thorough': 40000}
     search_budget = {'quick': 5000, 'thorough': 40000}
-    rule = ('case = (capacity, op sequence); jobs are coroutines `async with sem(w): await gate`; op acquire = spawn a job, op release = open '
-            'its gate; after every op the loop is run to quiescence and (sem.value, ids inside the body, waiting order, order in which jobs '
-            'entered the body during this op) is compared with the model; non-trivial = at least one acquire had to queue; distinct by full case')
+    rule = ('case = (capacity, sequence of groups of ops); jobs are coroutines `async with sem(w): await gate`; op acquire = spawn a job, op '
+            'release = open its gate; the ops of a group are issued without running the loop in between (their blocks run back to back in one '
+            'loop iteration, before any waiter they wake runs), then the loop is run to quiescence and (sem.value, ids inside a body, waiting '
+            'order, order in which jobs entered their body during the group) is compared with the model; the oracle additionally looks at '
+            'sem.value and the set of running bodies at the moment of every body entry; non-trivial = at least one acquire had to queue; '
+            'distinct by full case')
     trusted = ['harness/aloop.py deterministic event loop (real asyncio.SelectorEventLoop with a virtual clock; ready queue never permuted)',
                'waiting order is read from sem.queue through asyncio.Event._waiters / Task._fut_waiter (falls back to arrival order)']
     assumptions = ['waiters are not cancelled (explicitly outside C16)', 'one event loop thread; code is atomic between awaits']
@@ -43,27 +49,40 @@ class C16(Prop):
         mod = importlib.util.module_from_spec(spec)
         spec.loader.exec_module(mod)     # pure stdlib module; loaded by path so that the batch package __init__ is not needed
         self.Sem = mod.FIFOWeightedSemaphore
+        self._obs = {}
 
     # ---- generation ----------------------------------------------------------------------------
+    # case = {'cap': c, 'groups': [[op, ...], ...]}; op = ['a', i, w] | ['r', i].  The ops of one group are issued inside ONE event-loop
+    # iteration (their atomic blocks run back to back, before any waiter woken by them runs); then the loop runs to quiescence.
     @staticmethod
-    def _sim(cap, ops):
-        """reference bookkeeping used ONLY to generate protocol-respecting op lists (who may release); not the oracle"""
+    def _groups(c):
+        return c['groups'] if 'groups' in c else [[o] for o in c['ops']]
+
+    @staticmethod
+    def _sim(cap, groups):
+        """reference bookkeeping used ONLY to generate protocol-respecting groups (who is in a body at the start of a group); not the
+        oracle.  Raises KeyError when a group releases a task that is not in a body at the start of the group."""
         value, queue, holders = cap, [], {}
-        for op in ops:
-            if op[0] == 'a':
-                _, i, w = op
-                if not queue and value >= w:
-                    value -= w
-                    holders[i] = w
+        for g in groups:
+            inbody = set(holders)
+            for op in g:
+                if op[0] == 'a':
+                    _, i, w = op
+                    if not queue and value >= w:
+                        value -= w
+                        holders[i] = w
+                    else:
+                        queue.append((i, w))
                 else:
-                    queue.append((i, w))
-            else:
-                w = holders.pop(op[1])
-                value += w
-                while queue and value >= queue[0][1]:
-                    i, w = queue.pop(0)
-                    value -= w
-                    holders[i] = w
+                    if op[1] not in inbody:
+                        raise KeyError(op[1])
+                    inbody.discard(op[1])
+                    w = holders.pop(op[1])
+                    value += w
+                    while queue and value >= queue[0][1]:
+                        i, w = queue.pop(0)
+                        value -= w
+                        holders[i] = w
         return value, queue, holders
 
     def _random_case(self, rng):
@@ -71,64 +90,82 @@ class C16(Prop):
         max_tasks = rng.choice([2, 3, 4, 5, 6, 8])
         n = rng.choice([3, 5, 7, 9, 12, 16])
         style = rng.random()
-        ops = []
+        p_multi = rng.choice([0.0, 0.3, 0.6])
+        groups = []
         for _ in range(n):
-            _, queue, holders = self._sim(cap, ops)
+            _, queue, holders = self._sim(cap, groups)
             active = set(holders) | {i for i, _ in queue}
-            can_acq = len(active) < max_tasks
-            p_acq = 0.65 if style < 0.5 else 0.5
-            if holders and (not can_acq or rng.random() > p_acq):
-                ops.append(['r', rng.choice(sorted(holders))])
-            elif can_acq:
-                i = rng.choice([j for j in range(max_tasks) if j not in active])
-                r = rng.random()
-                if r < 0.25:
-                    w = cap
-                elif r < 0.5:
-                    w = 1
-                else:
-                    w = rng.randint(1, cap)
-                ops.append(['a', i, w])
-        return {'cap': cap, 'ops': ops}
+            free_ids = [j for j in range(max_tasks) if j not in active]
+            can_release = sorted(holders)
+            g = []
+            for _k in range(1 if rng.random() >= p_multi else rng.choice([2, 2, 3])):
+                p_acq = 0.65 if style < 0.5 else 0.5
+                # same-tick groups are interesting when they release while somebody is queued
+                if g and queue and can_release and rng.random() < 0.6:
+                    p_acq = 0.25
+                if can_release and (not free_ids or rng.random() > p_acq):
+                    i = rng.choice(can_release)
+                    can_release.remove(i)
+                    g.append(['r', i])
+                elif free_ids:
+                    i = rng.choice(free_ids)
+                    free_ids.remove(i)
+                    r = rng.random()
+                    w = cap if r < 0.25 else 1 if r < 0.5 else rng.randint(1, cap)
+                    g.append(['a', i, w])
+            if g:
+                groups.append(g)
+        return {'cap': cap, 'groups': groups}
 
-    def _exhaustive(self, cap, length, max_tasks):
+    def _exhaustive(self, cap, length, max_tasks, pairs=True):
+        """every protocol-respecting sequence of exactly `length` groups, a group being one op or a same-iteration pair
+        release;release / release;acquire / acquire;release (task ids are interchangeable: a new task gets the smallest free id)"""
         out = []
 
-        def rec(ops):
-            if len(ops) == length:
-                out.append({'cap': cap, 'ops': [list(o) for o in ops]})
+        def rec(groups):
+            if len(groups) == length:
+                out.append({'cap': cap, 'groups': [[list(o) for o in g] for g in groups]})
                 return
-            _, queue, holders = self._sim(cap, ops)
+            _, queue, holders = self._sim(cap, groups)
             active = set(holders) | {i for i, _ in queue}
+            acqs = []
             if len(active) < max_tasks:
-                i = min(j for j in range(max_tasks) if j not in active)   # ids are interchangeable: canonical fresh id
-                for w in range(1, cap + 1):
-                    rec(ops + [['a', i, w]])
-            for i in sorted(holders):
-                rec(ops + [['r', i]])
+                i = min(j for j in range(max_tasks) if j not in active)
+                acqs = [['a', i, w] for w in range(1, cap + 1)]
+            rels = [['r', i] for i in sorted(holders)]
+            nxt = [[o] for o in acqs + rels]
+            if pairs:
+                nxt += [[r1, r2] for r1 in rels for r2 in rels if r1[1] < r2[1]]
+                nxt += [[r, a] for r in rels for a in acqs] + [[a, r] for r in rels for a in acqs]
+            for g in nxt:
+                rec(groups + [g])
         rec([])
         return out
 
     def cases(self, rng, n, tier):
         if tier == 'thorough':
-            # every protocol-respecting sequence of exactly 7 ops (all shorter ones are prefixes and are compared line by line)
+            # singles only: every sequence of 7 ops (cap <= 4, <= 4 tasks); with same-iteration pairs: 6 groups (cap <= 2) / 5 (cap 3)
+            # / 4 (cap 4)
             for cap in (1, 2, 3, 4):
-                yield from self._exhaustive(cap, 7, 4)
+                yield from self._exhaustive(cap, 7, 4, pairs=False)
+            for cap, length in ((1, 6), (2, 6), (3, 5), (4, 4)):
+                yield from self._exhaustive(cap, length, 4)
         else:
-            for cap in (1, 2, 3):
-                yield from self._exhaustive(cap, 4, 3)
+            for cap in (1, 2):
+                yield from self._exhaustive(cap, 4, 4)
         for _ in range(n):
             yield self._random_case(rng)
 
     def search_cases(self, rng, n, hint):
         for cap in (1, 2, 3):
-            yield from self._exhaustive(cap, 5, 3)
+            yield from self._exhaustive(cap, 4, 4)
         for _ in range(n):
             yield self._random_case(rng)
 
     # ---- model ---------------------------------------------------------------------------------
     def model_lines(self, c):
-        return ['reset', f"cap {c['cap']}"] + [f'acquire {o[1]} {o[2]}' if o[0] == 'a' else f'release {o[1]}' for o in c['ops']]
+        return ['reset', f"cap {c['cap']}"] + [';'.join(f'acquire {o[1]} {o[2]}' if o[0] == 'a' else f'release {o[1]}' for o in g)
+                                               for g in self._groups(c)]
 
     # ---- real code -----------------------------------------------------------------------------
     def _waiting_order(self, sem, tasks, arrival):
@@ -144,164 +181,217 @@ class C16(Prop):
         except (AttributeError, TypeError, ValueError):
             return list(arrival)
 
-    def impl(self, c):
+    def _observe(self, c):
+        """run the real class; returns (lines, obs) with obs[k] = what happened during group k:
+        entries = [(task, entered without waiting?, sem.value right after it entered, ids in a body right then)], value/inside at rest"""
         s = aloop.Sched()
         try:
             sem = self.Sem(c['cap'])
             inside = set()
-            log = []
+            entries = []
             tasks = {}
             gen = {}
             arrival = []
 
             async def job(i, w, gate):
+                yielded = [False]
+                # runs as soon as this task yields for the first time, i.e. before any wake-up of it can be scheduled
+                s.loop.call_soon(yielded.__setitem__, 0, True)
                 async with sem(w):
                     inside.add(i)
-                    log.append(i)
+                    entries.append((i, not yielded[0], sem.value, sorted(inside)))
                     try:
                         await gate
                     finally:
                         inside.discard(i)
 
             def line():
-                g = list(log)
-                del log[:]
+                g = [e[0] for e in entries]
                 for i in g:
                     if i in arrival:
                         arrival.remove(i)
                 return f'v={sem.value} h={_fmt(sorted(inside))} q={_fmt(self._waiting_order(sem, tasks, arrival))} g={_fmt(g)}'
 
             out = ['ok', line()]
-            for op in c['ops']:
-                if op[0] == 'a':
-                    _, i, w = op
-                    if i in tasks and not tasks[i].done():
-                        out.append('err')
-                        continue
-                    gen[i] = gen.get(i, 0) + 1
-                    gate = s.gate((i, gen[i]))
-                    arrival.append(i)
-                    tasks[i] = s.spawn(i, job(i, w, gate))
-                else:
-                    i = op[1]
-                    if i not in inside:
-                        out.append('err')
-                        continue
-                    s.open((i, gen[i]))
+            obs = []
+            for g in self._groups(c):
+                ids = [o[1] for o in g]
+                legal = len(set(ids)) == len(ids)
+                for o in g:
+                    if o[0] == 'a':
+                        legal = legal and not (o[1] in tasks and not tasks[o[1]].done())
+                    else:
+                        legal = legal and o[1] in inside
+                if not legal:
+                    out.append('err')
+                    obs.append(None)
+                    continue
+                del entries[:]
+                for o in g:
+                    i = o[1]
+                    if o[0] == 'a':
+                        gen[i] = gen.get(i, 0) + 1
+                        arrival.append(i)
+                        tasks[i] = s.spawn(i, job(i, o[2], s.gate((i, gen[i]))), settle=False)
+                    else:
+                        s.open((i, gen[i]), settle=False)
+                s.settle()
                 for i, t in tasks.items():
                     if t.done() and not t.cancelled() and t.exception() is not None:
                         raise t.exception()
+                obs.append({'entries': [list(e) for e in entries], 'v': sem.value, 'h': sorted(inside)})
                 out.append(line())
-            return out
+            return out, obs
         finally:
             s.close()
 
-    # ---- the property on the real behaviour -------------------------------------------------------
-    @staticmethod
-    def _parse(line):
-        d = {}
-        for tok in line.split(' '):
-            k, _, v = tok.partition('=')
-            d[k] = v
-        f = lambda x: [int(y) for y in x.split(',') if y != '']
-        return int(d['v']), f(d['h']), f(d['g'])
+    def impl(self, c):
+        out, obs = self._observe(c)
+        self._obs[json.dumps(c, sort_keys=True)] = obs
+        return out
 
-    def _walk(self, c, out):
-        """yields per op: (op, value, holders, granted_now, waiting_before, waiting_after, weights) from the REAL output; waiting order
-        is reconstructed from the ops (arrival order), never from the model"""
+    def _get_obs(self, c):
+        o = self._obs.get(json.dumps(c, sort_keys=True))
+        if o is None:
+            _, o = self._observe(c)
+        return o
+
+    # ---- the property on the real behaviour -------------------------------------------------------
+    def _check(self, c):
+        """the property, on what the real class did.  returns (message or None, measurements)"""
         cap = c['cap']
+        m = {'queued': 0, 'multi': 0, 'follower': 0, 'behind_queue': 0, 'same_iter': 0, 'woken_then_release': 0, 'woken_then_acquire': 0}
+        groups = self._groups(c)
+        if any(o[0] == 'a' and o[2] > cap for g in groups for o in g):
+            return None, m  # outside the quantifier (weights <= capacity)
+        obs = self._get_obs(c)
         weights = {}
-        waiting = []
-        holders = set()
-        for op, ln in zip(c['ops'], out[2:]):
-            if ln == 'err':
-                yield (op, None, None, None, list(waiting), list(waiting), dict(weights), set(holders))
-                continue
-            v, h, g = self._parse(ln)
-            before = list(waiting)
-            hb = set(holders)
-            if op[0] == 'a':
-                weights[op[1]] = op[2]
-                waiting.append(op[1])
-            for i in g:
-                if i in waiting:
-                    waiting.remove(i)
-            holders = set(h)
-            yield (op, v, h, g, before, list(waiting), dict(weights), hb)
+        pending = []          # arrived, not yet in a body: arrival order
+        inbody = set()
+        for k, (g, ob) in enumerate(zip(groups, obs)):
+            if ob is None:
+                return None, m  # the op list does not respect the protocol: outside the quantifier
+            at = f'group {k} {g}'
+            if len(g) > 1:
+                m['same_iter'] += 1
+            for o in g:
+                if o[0] == 'a':
+                    weights[o[1]] = o[2]
+                    pending.append(o[1])
+                else:
+                    inbody.discard(o[1])
+            n_waited = 0
+            for (i, immediate, v_at, inside_at) in ob['entries']:
+                where = f'{at}: when task {i} entered its body'
+                running = sum(weights[j] for j in inside_at)
+                if running > cap:
+                    return f'{where} the running bodies {inside_at} used {running} > capacity {cap}', m
+                if v_at < 0:
+                    return f'{where} the free value was {v_at} < 0', m
+                owned_by_woken = cap - v_at - running
+                if owned_by_woken < 0:
+                    return f'{where} value {v_at} + running {running} exceeded the capacity {cap}', m
+                if i not in pending:
+                    return f'{where}: it had not asked, or entered twice', m
+                earlier = pending[:pending.index(i)]
+                if not immediate:
+                    n_waited += 1
+                    if earlier:
+                        return f'{where} (after waiting), the earlier arrivals {earlier} had not been served: not FIFO', m
+                else:
+                    # a task that gets in without waiting may find earlier arrivals not yet running only if they have been woken and
+                    # own their weight already (value + running + owned = capacity); otherwise it overtook a waiter
+                    need = sum(weights[j] for j in earlier)
+                    if need > owned_by_woken:
+                        return (f'{where} without waiting, the earlier arrivals {earlier} (weights {need}) were still waiting while only '
+                                f'{owned_by_woken} was reserved for woken waiters (value {v_at}, running {running}): it overtook the queue'), m
+                    if need < owned_by_woken:
+                        return f'{where} {owned_by_woken} was neither free nor held by anybody (value {v_at}, running {running})', m
+                    if earlier:
+                        m['woken_then_acquire'] += 1
+                pending.remove(i)
+                inbody.add(i)
+            # at rest
+            v, h = ob['v'], ob['h']
+            rest = f'after {at}'
+            if v < 0:
+                return f'{rest}: value {v} < 0', m
+            held = sum(weights[i] for i in h)
+            if v + held != cap:
+                return f'{rest}: value {v} + held {held} != capacity {cap} (in a body: {h})', m
+            if set(h) != inbody:
+                return f'{rest}: in a body {sorted(h)} but expected {sorted(inbody)} from the entries and exits observed', m
+            if pending and not v < weights[pending[0]]:
+                return f'{rest}: head of queue {pending[0]} (weight {weights[pending[0]]}) is blocked although value is {v}', m
+            if not h and pending:
+                return f'{rest}: nobody holds but {pending} wait', m
+            # measurements
+            rels = [o for o in g if o[0] == 'r']
+            for o in g:
+                if o[0] == 'a' and o[1] in pending:
+                    m['queued'] += 1
+                    if weights[o[1]] <= v and pending[0] != o[1]:
+                        m['behind_queue'] += 1
+            if n_waited >= 2:
+                m['multi'] += 1
+            if len(rels) >= 2 and n_waited:
+                m['woken_then_release'] += 1
+            if pending and any(weights[i] <= v for i in pending[1:]):
+                m['follower'] += 1
+        return None, m
 
     def oracle(self, c, out):
         if out and out[0].startswith('IMPL-EXC'):
             return out[0]
-        cap = c['cap']
-        if any(o[0] == 'a' and o[2] > cap for o in c['ops']):
-            return None  # outside the quantifier (weights <= capacity)
-        for k, (op, v, h, g, before, after, weights, hb) in enumerate(self._walk(c, out)):
-            if v is None:
-                return None  # op list does not respect the protocol: outside the quantifier
-            at = f'after op {k} {op}'
-            if v < 0:
-                return f'{at}: value {v} < 0'
-            held = sum(weights[i] for i in h)
-            if v + held != cap:
-                return f'{at}: value {v} + held {held} != capacity {cap} (holders {h})'
-            # bookkeeping of who is inside
-            exp = set(hb) | set(g)
-            if op[0] == 'r':
-                exp.discard(op[1])
-                if op[1] in h:
-                    return f'{at}: task {op[1]} still holds after release'
-            if exp != set(h):
-                return f'{at}: holders {sorted(h)} but expected {sorted(exp)} from the entries observed'
-            if op[0] == 'a' and before and op[1] in g:
-                return f'{at}: arrival {op[1]} was granted while {before} were queued (barging)'
-            gq = [i for i in g if i in before]     # tasks granted out of the queue by this op, in the order they entered
-            if gq != before[:len(gq)]:
-                return f'{at}: queued tasks granted in order {gq}, arrival order was {before}'
-            if after and not v < weights[after[0]]:
-                return f'{at}: head of queue {after[0]} (weight {weights[after[0]]}) is blocked although value is {v}'
-            if not h and after:
-                return f'{at}: nobody holds but {after} wait'
-        return None
+        return self._check(c)[0]
 
     def classify(self, c, out):
-        tags = [f"len={min(len(c['ops']), 16)}", f"cap={c['cap']}"]
-        queued = multi = follower = barg = 0
-        try:
-            for (op, v, h, g, before, after, weights, hb) in self._walk(c, out):
-                if v is None:
-                    tags.append('protocol-err')
-                    continue
-                if op[0] == 'a' and op[1] in after:
-                    queued += 1
-                    if before and op[2] <= v:
-                        barg += 1
-                if op[0] == 'r' and len(g) >= 2:
-                    multi += 1
-                if after and any(weights[i] <= v for i in after[1:]):
-                    follower += 1
-        except Exception:
-            tags.append('unparsable')
-        tags.append('queued' if queued else 'no-contention')
-        if multi:
-            tags.append('release-grants>=2')
-        if follower:
-            tags.append('blocked-head-with-fitting-follower')
-        if barg:
-            tags.append('fitting-arrival-behind-queue')
-        return (json.dumps(c, sort_keys=True) if queued else None, tags)
+        groups = self._groups(c)
+        tags = [f"len={min(len(groups), 16)}", f"cap={c['cap']}"]
+        if out and out[0].startswith('IMPL-EXC'):
+            return (None, tags + ['impl-exception'])
+        _, m = self._check(c)
+        self._obs.pop(json.dumps(c, sort_keys=True), None)
+        if 'err' in out:
+            tags.append('protocol-err')
+        tags.append('queued' if m['queued'] else 'no-contention')
+        for k, name in (('multi', 'group-wakes>=2'), ('follower', 'blocked-head-with-fitting-follower'),
+                        ('behind_queue', 'fitting-arrival-behind-queue'), ('same_iter', 'same-iteration-group'),
+                        ('woken_then_release', 'two-releases-before-woken-waiter-runs'),
+                        ('woken_then_acquire', 'acquire-between-wake-up-and-resume')):
+            if m[k]:
+                tags.append(name)
+        return (json.dumps(c, sort_keys=True) if m['queued'] else None, tags)
 
     def finding_key(self, c, msg):
         return json.dumps(c, sort_keys=True)
 
     def shrink(self, c, fails):
-        def ok(ops):
+        cap = c['cap']
+        groups = [list(g) for g in self._groups(c)]
+        if not fails({'cap': cap, 'groups': groups}):
+            return c
+
+        def ok(gs):
             try:
-                self._sim(c['cap'], ops)
+                self._sim(cap, gs)
             except KeyError:
                 return False
-            return fails({'cap': c['cap'], 'ops': ops})
-        ops = generic_shrink_list(c['ops'], ok) if fails(c) else c['ops']
-        return {'cap': c['cap'], 'ops': ops}
+            return fails({'cap': cap, 'groups': gs})
+        groups = generic_shrink_list(groups, ok)
+        changed = True
+        while changed:
+            changed = False
+            for k, g in enumerate(groups):
+                if len(g) > 1:
+                    for drop in range(len(g)):
+                        cand = groups[:k] + [g[:drop] + g[drop + 1:]] + groups[k + 1:]
+                        if ok(cand):
+                            groups, changed = cand, True
+                            break
+                if changed:
+                    break
+        return {'cap': cap, 'groups': groups}
 
 
 PROP = C16()
